@@ -295,6 +295,13 @@ pub fn run_case(c: &FCase) -> Result<Obs, RunErr> {
             let off = a.off as u64 % len;
             let l = if a.to_end { len - off } else { 1 + (a.len as u64 % (len - off)) };
             app_regions.push((addr + off, l));
+            // duplicates and nested regions: now and then the same region is registered twice, or a
+            // second one starts inside it
+            match (a.off ^ a.len) % 11 {
+                0 => app_regions.push((addr + off, l)),
+                1 if l > 2 => app_regions.push((addr + off + l / 2, 1 + (a.len as u64 % (l - l / 2)))),
+                _ => {}
+            }
         }
     }
     if k > 0 && !matches!(c.blamed, BlamedG::Foreign) {
